@@ -109,6 +109,7 @@ pub fn worker_entry(args: &[String], f: fn(&mut WorkerCtx)) -> i32 {
     // milliseconds. No beat within the limit = a call into rivia that does not return.
     {
         let name = w.name.clone();
+        let main_tid = crate::common::par::my_tid();
         std::thread::spawn(move || {
             use std::sync::atomic::Ordering;
             let limit = crate::common::par::stall_limit();
@@ -119,6 +120,10 @@ pub fn worker_entry(args: &[String], f: fn(&mut WorkerCtx)) -> i32 {
                 if b != last.0 {
                     last = (b, std::time::Instant::now());
                 } else if last.1.elapsed() > limit {
+                    if !crate::common::par::confirm_stuck(main_tid, limit, &|| crate::common::par::WORKER_BEAT.load(Ordering::Relaxed) == b) {
+                        last = (u64::MAX, std::time::Instant::now());
+                        continue;
+                    }
                     let unit = crate::common::par::WORKER_UNIT.load(Ordering::Relaxed);
                     let line = J::obj([
                         ("sig", J::s(format!("{} worker · hang (a call into rivia does not return)", name))),
